@@ -69,6 +69,15 @@ CLAIMS['C16'] = dict(
          "sequences are NOT explored.",
     technique="dominating facts per allocation site + path-sensitive typestate with store/load model over inlined LLVM IR")
 
+CLAIMS['C04'] = dict(
+    text="Decides, over every path and every table state the code distinguishes (pending or not, grow or shrink): (E1) each bucket-array "
+         "walk reachable from foreach / foreach_const / clear is bounded by a value that covers both geometries or is preceded by the "
+         "forced rehash; (E2) foreach, whose callback may erase, forces the rehash first; (E3) the chain walker never touches a node "
+         "after its visit returned; (E4) clear re-establishes every constant that init sets (bucket.cst exempt, reasoned) and frees the "
+         "array exactly once; (E5) after a non-zero visit no further visit happens and that value is returned (path-sensitive). That "
+         "the relocation arithmetic puts every node in exactly one chain is NOT decided.",
+    technique="role discovery by effect + pending-aware value classification over branch facts + typestate (stop value) + init/clear sibling agreement")
+
 NA = {
     'C02': "inductive colour/black-height invariant over an unbounded pointer structure; needs shape/separation reasoning that no static analyser available here provides (DESIGN.md 4/C02)",
     'C07': "heap order and completeness are inductive invariants tying pointer shape to size arithmetic; not expressible as dataflow/typestate/effects (DESIGN.md 4/C07)",
